@@ -21,6 +21,7 @@ fn cfgs() -> Vec<Entry> {
     #[cfg(feature = "alloc")] { c!(v, true,"general",Q16D,Heap,dyn Sync); } }
     #[cfg(feature = "alloc")] { c!(v, true,"general",A64D,Heap,dyn Cloneable); }
     #[cfg(feature = "alloc")] { c!(v, true,"general",F40D,Heap,dyn Cloneable); }
+    #[cfg(feature = "alloc")] { c!(v, true,"general",Z,Heap,dyn Cloneable); }
     v
 }
 fn main() { anyvec_mc::main_with(cfgs) }
